@@ -343,7 +343,23 @@ pub fn tuples(k: usize, n: usize) -> Vec<Vec<usize>> {
 }
 
 /// Sizes straddling powers of two (internal block / cap constants live there).
-pub const LADDER: [usize; 7] = [255, 256, 257, 1023, 1024, 1025, 4097];
+pub const LADDER: [usize; 16] = [255, 256, 257, 999, 1000, 1001, 1023, 1024, 1025, 2999, 3000, 3001, 4097, 8193, 65537, 70001];
+/// record / part counts straddling the same kind of thresholds
+pub const COUNT_LADDER: [usize; 13] = [255, 256, 257, 999, 1000, 1001, 1023, 1024, 1025, 2049, 2999, 3001, 4097];
+
+/// One shape whose (last) part has exactly n vertices (n >= 2), preceded by a short part where the type has parts.
+pub fn sized(ty: Ty, n: usize) -> MShape {
+    let big = |start: usize, n: usize| -> Vec<P4> {
+        (0..n).map(|i| { let k = (start + i) as f64; [k * 0.5, 3.0 - k * 0.25, 100.0 + k, 1000.0 + k * 0.125] }).collect()
+    };
+    match ty.family() {
+        Family::Multipoint => MShape { ty, parts: vec![MPart { kind: 0, pts: big(0, n) }] },
+        Family::Polyline => MShape { ty, parts: vec![MPart { kind: 0, pts: big(0, 2) }, MPart { kind: 0, pts: big(2, n) }] },
+        Family::Polygon => MShape { ty, parts: vec![MPart { kind: 0, pts: big(0, 3) }, MPart { kind: 1, pts: big(3, n) }] },
+        Family::Multipatch => MShape { ty, parts: vec![MPart { kind: 2, pts: big(0, 3) }, MPart { kind: 0, pts: big(3, n) }] },
+        _ => MShape::point(ty, dflt(n)),
+    }
+}
 
 /// Large shapes: one long part (after a short one where the type has parts)
 /// for every ladder size, and many short parts for the sizes <= 1025.
@@ -366,7 +382,7 @@ pub fn ladder(ty: Ty) -> Vec<MShape> {
             for n in LADDER {
                 out.push(MShape { ty, parts: vec![MPart { kind: k_first, pts: big(0, 3) }, MPart { kind: k_big, pts: big(3, n) }, MPart { kind: k_first, pts: big(3 + n, 2) }] });
             }
-            for p in [1023usize, 1024, 1025] {
+            for p in [999usize, 1000, 1001, 1023, 1024, 1025] {
                 out.push(MShape { ty, parts: (0..p).map(|i| MPart { kind: if fam == Family::Multipatch { (i % 6) as u8 } else { (i % 2) as u8 * (fam == Family::Polygon) as u8 }, pts: big(i * 2, 2) }).collect() });
             }
         }
